@@ -996,8 +996,9 @@ class NF:
                     idx_id = ip.get("id") if ip.get("k") == "Binding" else None
                     pat2 = pat2["pats"][1]
                 src, val, conds = iter_view(it)
-                if conds:
+                if conds and idx_id is not None:
                     return None
+                guard = [c_ if b_ else ("not", c_) for c_, b_ in conds]     # what a round has to meet to append its text at all
                 env3 = env2.child()
                 bind_pattern(pat2, val, env3)
                 body = H.strip(e["body"])
@@ -1007,6 +1008,44 @@ class NF:
                 sep = ""
                 pieces = []
                 for j, x in enumerate(stmts):
+                    xg = H.strip(x.get("e")) if x.get("k") in ("Semi", "Expr") else None
+                    if xg is not None and xg.get("k") == "If" and not xg.get("else") and idx_id is None and H.strip(xg["cond"]).get("k") != "LetExpr" \
+                            and self._mutations(lid, [xg]) and not pieces:
+                        # `if wanted(x) { other.push(x); text.push_str(&format!(..)) }`: the round's text under a condition; what else the
+                        # round does (and cannot leave the loop with) is not the text's business
+                        tb = H.strip(xg["then"])
+                        inner = (list(tb["b"]["stmts"]) + ([{"k": "Expr", "e": tb["b"]["tail"]}] if tb["b"].get("tail") else [])) if tb.get("k") == "Block" else []
+                        env4 = env3.child()
+                        got = None
+                        okb = True
+                        for y in inner:
+                            if y.get("k") == "Let":
+                                if self._mutations(lid, [y]):
+                                    okb = False
+                                    break
+                                self.bind_let(y, env4)
+                                continue
+                            ye = H.strip(y.get("e")) if y.get("k") in ("Semi", "Expr") else None
+                            if ye is None:
+                                continue
+                            ye = _strip_result_use(ye)
+                            if not self._mutations(lid, [ye]):
+                                if _can_leave_loop(ye):
+                                    okb = False
+                                    break
+                                continue
+                            if got is None and ye.get("k") == "MethodCall" and ye["name"] in ("push_str", "push") and _is_local(ye["recv"], lid):
+                                got = text_of(ye["args"][0], env4)
+                            elif got is None and ye.get("k") == "MethodCall" and ye["name"] == "write_fmt" and _is_local(ye["recv"], lid):
+                                got = text_of(ye["args"][0], env4)
+                            else:
+                                okb = False
+                                break
+                        if okb and got is not None:
+                            guard.append(self.nf(xg["cond"], env3))
+                            pieces += got
+                            continue
+                        return None
                     if x.get("k") == "Let" and x["pat"].get("k") == "Wild" and x.get("init") is not None:
                         x = {"k": "Semi", "e": x["init"]}
                     if x.get("k") == "Let":
@@ -1038,6 +1077,11 @@ class NF:
                     if self._mutations(lid, [xe]):
                         return None
                 body_nf = ("format", tuple(pieces)) if not (len(pieces) == 1 and pieces[0][0] == "hole") else pieces[0][1]
+                if guard:
+                    gc = guard[0]
+                    for g_ in guard[1:]:
+                        gc = ("binop", "And", gc, g_)
+                    body_nf = ("ifelse", gc, body_nf, ("lit", ""))      # a round that does not meet the conditions appends nothing
                 # element references are in terms of ("elem", src) through iter_view's value
                 parts.append(("hole", ("joinmap", src, body_nf, sep), "display", "?"))
                 continue
@@ -1420,6 +1464,46 @@ def _sink_type(ty):
     return t == "W" or "std::fmt::Formatter" in t or "dyn std::io::Write" in t or "dyn std::fmt::Write" in t or (t.isidentifier() and t[:1].isupper() and len(t) <= 3)
 
 
+class _FlushMark:
+    """where a text buffer is written to the sink as a whole"""
+    kind = "flush"
+
+    def __init__(self, name, ctx):
+        self.name = name
+        self.ctx = ctx
+
+
+def _replay_buffers(events, buffers):
+    """What was put into a text buffer comes out where the buffer is written to the sink, in the order in which it was put in (a buffer
+    filled inside a loop that also writes to the sink itself comes out after the loop: a second walk over the same elements)."""
+    marks = [e for e in events if getattr(e, "kind", None) == "flush"]
+    if not marks:
+        return events
+    names = {n_: i_ for i_, n_ in buffers.items()}
+    held = {}
+    out = []
+    for e in events:
+        if getattr(e, "kind", None) == "flush":
+            out += held.pop(e.name, [])
+            continue
+        sink = getattr(e, "sink", None)
+        sk = H.strip(sink) if isinstance(sink, dict) else None
+        while isinstance(sk, dict) and (sk.get("k") == "AddrOf" or (sk.get("k") == "Unary" and sk.get("op") == "Deref")):
+            sk = H.strip(sk["e"])
+        lid = sk.get("id") if isinstance(sk, dict) and sk.get("k") in ("Path", "Binding") and (sk.get("res") == "local" or sk.get("k") == "Binding") else None
+        bname = buffers.get(lid)
+        if getattr(e, "kind", None) == "emit" and bname is not None and any(m.name == bname for m in marks):
+            held.setdefault(bname, []).append(e)
+        else:
+            out.append(e)
+    for rest in held.values():
+        out += rest
+    for i_, e in enumerate(out):
+        if hasattr(e, "order"):
+            e.order = i_
+    return out
+
+
 class Emit:
     def __init__(self, fn, node, fa, parts, ctx, propagated, order, sink):
         self.kind = "emit"
@@ -1612,6 +1696,11 @@ def normalize_lines(events):
                 break   # this emit can follow a completed line: it starts the next one
             run.append(e)
             j += 1
+            if len(run) > 1 and len(e.parts) == 1 and e.parts[0][0] == "hole" and j < len(split) and split[j].kind == "emit" and split[j].ctx == e.ctx \
+                    and split[j].parts and split[j].parts[0][0] == "lit" and not split[j].parts[0][1][:1].isspace() and split[j].parts[0][1][:1] not in ("", "#", "/"):
+                # a value pushed in the middle of a line that is put together piece by piece (`"self."`, name, `".check(..)?;\n"`): the
+                # text goes on right behind it
+                continue
             if _ends_line(e):
                 ended.append(e.ctx)
                 if not [c for c in e.ctx[len(_common(run)):] if c[0] == "alt"]:
@@ -1818,6 +1907,15 @@ class Extractor:
                         flushed[local_of(n["args"][0])] = flushed.get(local_of(n["args"][0]), 0) + 1
                         visit(n["recv"])
                         return
+                    if n["name"] == "write_fmt" and len(n["args"]) == 1 and local_of(n["recv"]) not in decl:
+                        # `write!(writer, "{buffer}")`: the buffer as a whole, nothing around it
+                        fa_ = H.strip(n["args"][0])
+                        if fa_.get("k") == "FormatArgs" and [p_[0] for p_ in fa_["parts"]] == ["hole"] and len(fa_["holes"]) == 1 \
+                                and fa_["holes"][0]["trait"] == "display" and not fa_["holes"][0].get("spec") and local_of(fa_["holes"][0]["arg"]) in decl:
+                            bl = local_of(fa_["holes"][0]["arg"])
+                            flushed[bl] = flushed.get(bl, 0) + 1
+                            visit(n["recv"])
+                            return
                 if k == "AssignOp" and local_of(n.get("a") or {}) in decl and n.get("op") == "Add":
                     visit(n.get("b"))
                     return
@@ -1963,6 +2061,7 @@ class Extractor:
         self.params[path] = names
         out = []
         self._visit(path, nb["value"], env, (), out, how="tail")
+        out = _replay_buffers(out, self._buffers)
         if CANON:
             out = normalize_lines(out)
         return out
@@ -2106,13 +2205,21 @@ class Extractor:
                 except UnicodeDecodeError:
                     pass
             if v[0] == "param" and str(v[1]).startswith("buffer:"):
-                return    # the buffer handed to the real sink: what it holds was accounted for where it was put in
+                # the buffer handed to the real sink: what it holds was accounted for where it was put in — and comes out here
+                out.append(_FlushMark(str(v[1])[len("buffer:"):], ctx))
+                return
             parts = (("lit", v[1]),) if v[0] == "lit" and isinstance(v[1], str) else (("hole", v, "display", "&str"),)
             for pp, extra in (canon_parts(parts, self._ce()) if CANON else [(parts, ())]):
                 out.append(Emit(fn, e, None, pp, ctx + extra, how, len(out), e["recv"]))
             return
         if k == "MethodCall" and e["name"] == "write_fmt" and not self._is_sink(e["recv"], env):
             return   # formatting into a local value (String), not into the output
+        if k == "MethodCall" and e["name"] == "write_fmt" and H.strip(e["args"][0]).get("k") == "FormatArgs" and len(H.strip(e["args"][0])["holes"]) == 1 \
+                and [p_[0] for p_ in H.strip(e["args"][0])["parts"]] == ["hole"]:
+            hv = self.NF.nf(H.strip(e["args"][0])["holes"][0]["arg"], env)
+            if isinstance(hv, tuple) and hv[0] == "param" and str(hv[1]).startswith("buffer:"):
+                out.append(_FlushMark(str(hv[1])[len("buffer:"):], ctx))
+                return
         if k == "MethodCall" and e["name"] == "write_fmt":
             fa = e["args"][0]
             if H.strip(fa).get("k") != "FormatArgs":
